@@ -249,6 +249,9 @@ def gen_general_text(rng):
     out = []
     if rng.random() < 0.3:
         out.append('is_large = amount > %d\n' % rng.choice([10, 100]))
+    if rng.random() < 0.25:
+        out.append(rng.choice(['field.ref = extract("r(\\\\d+)")\n', 'field.kind = uppercase(description)\n',
+                               'field.ref = extract("(COFFEE)") if contains("COFFEE") else field.ref\n']))
     if rng.random() < 0.35:
         out.append(rng.choice(['field.description = strip_prefix(field.description, "SQ *")\n',
                                'field.description = regex_replace(field.description, "COFFEE", "TEA")\n',
@@ -269,6 +272,12 @@ def gen_general_text(rng):
             lines.append('merchant: %s %s' % (nm, rng.choice(['Inc', 'Co'])))
         if rng.random() < 0.15:
             lines.append('field: code = extract("r(\\\\d+)")')
+        if rng.random() < 0.15:
+            # a field whose value IS supplemental rows (not a copy of them)
+            lines.append(rng.choice(['field: order = [r for r in orders if r.amount == txn.amount]', 'field: first = orders[0]',
+                                     'field: when = [r.date for r in orders]']))
+        if rng.random() < 0.1:
+            lines[1] = 'match: (%s) or exists(field.ref)' % lines[1][len('match: '):]
         out.append('\n'.join(lines) + '\n')
     return '\n'.join(out)
 
@@ -448,7 +457,7 @@ def _canon_val(v):
     if isinstance(v, dict):
         return {str(k): _canon_val(x) for k, x in sorted(v.items(), key=lambda kv: str(kv[0]))}
     if isinstance(v, (datetime.date, datetime.datetime)):
-        return v.isoformat()
+        return {'__date__': v.isoformat()}       # a date is not the string that spells it
     if isinstance(v, (str, int, float, bool)) or v is None:
         return v
     if hasattr(v, '__dataclass_fields__'):
